@@ -992,7 +992,9 @@ Section Step.
         destruct W2 as (es & m & t & Hd). rewrite Hd in Hst. injection Hst as <-. now left.
       + assert (W : wshape (root fs) T (filter nondot cs) (walk MAXSYMLINKS (root fs) T cs false)).
         { apply walk_safe_dotted; rewrite ?Hfil'; auto. apply (c_dir _ C). }
-        rewrite Hfil' in W. inversion W as [e He|q' k Hq He]; rewrite <- He in Hst; [discriminate|].
+        rewrite Hfil' in W.
+        set (wr := walk MAXSYMLINKS (root fs) T cs false) in *. clearbody wr.
+        destruct W as [e|q' k Hq]; [discriminate|].
         destruct (get (T ++ Lq) (root fs)) as [n|] eqn:Eg; [|discriminate]. injection Hst as <-. right.
         apply (inside_leaf_clean T O (root fs) (T ++ q') k n); [apply (c_cl _ C)|apply is_prefix_app, is_prefix_refl|].
         now rewrite <- app_assoc, <- Hq.
@@ -1074,7 +1076,7 @@ Section Step.
       + right. now split.
       + exact Hne.
       + unfold parse. cbn [p_abs]. exact Hap.
-      + rewrite Hfil. fold k. destruct (str_eqb (concat k) [DOT] && Nat.eqb (length k) 1) eqn:E; [|reflexivity].
+      + rewrite Hfil. fold k. match goal with |- _ = (if ?b then _ else _) => destruct b eqn:E end; [|reflexivity].
         exfalso. apply andb_prop in E as [E1 E2]. apply Nat.eqb_eq in E2. apply str_eqb_eq in E1.
         destruct k as [|c [|? ?]]; cbn in E2; try lia. cbn in E1. rewrite app_nil_r in E1. subst c.
         apply Forall_inv in Hnorm. destruct Hnorm as (_ & Hd & _). cbn in Hd. discriminate.
@@ -1102,7 +1104,7 @@ Section Step.
     unfold create_fs_obj in Hrun. pose proof (cu_cwd _ _ _ _ C) as Hcwd.
     destruct (e_type e =? T_HARDLINK)%N eqn:Ehl.
     { (* hard link *)
-      specialize (Hhl eq_refl).
+      specialize (Hhl Ehl).
       destruct (cleanup_pathname fl (e_link e)) as [lc| | |] eqn:Ecl;
         try (injection Hrun as <- <- <-; repeat split; auto).
       destruct (cleanup_names fl (e_link e) lc Hs2 Hs3 Ecl) as (Lq & HLrel & HLq & HLlen & HLne & HLabs & HLfil).
@@ -1146,7 +1148,7 @@ Section Step.
         apply snd_eq in Esl. rewrite Esl.
         change (with_fs st (snd (sys_symlink fs1 (st_cwd st) (e_link e) (w_name w))))
           with (with_fs (with_fs st fs1) (snd (sys_symlink (st_fs (with_fs st fs1)) (st_cwd (with_fs st fs1)) (e_link e) (w_name w)))).
-        now apply on_symlink. }
+        exact (on_symlink q (w_name w) Hrel st0 _ sy (e_link e) C1). }
     destruct (e_type e =? T_DIR)%N eqn:Edir.
     { destruct (sys_mkdir (st_fs st) (st_cwd st) (w_name w) _) as [[en2|] fs1] eqn:Emk.
       - injection Hrun as <- <- <-. repeat split; auto.
@@ -1229,6 +1231,11 @@ Section Step.
   Definition re_post (e : entry) (q : list name) (st0 : pstate) (w : work) (st' : pstate) (w' : work) : Prop :=
     exists sy, cur q st0 st' sy /\ w_name w' = w_name w /\ wfd_ok w' /\ wtmp_ok w' /\ (sy = true -> chmod_safe e w').
 
+  Lemma re_post_intro : forall e q st0 w st' w' sy,
+    cur q st0 st' sy -> w_name w' = w_name w -> wfd_ok w' -> wtmp_ok w' -> (sy = true -> chmod_safe e w') ->
+    re_post e q st0 w st' w'.
+  Proof. intros. exists sy. tauto. Qed.
+
   Lemma tail_create : forall fl e q st0 stA wA w en3 st3 w3 s st' w',
     secure fl -> hl_ok e -> cur q st0 stA false -> relname (w_name wA) q -> wfd_ok wA -> w_tmp wA = None ->
     w_name wA = w_name w ->
@@ -1237,10 +1244,11 @@ Section Step.
   Proof.
     intros fl e q st0 stA wA w en3 st3 w3 s st' w' Hsec Hhl C Hrel Hfd Htmp Hnm Hcr Hgu.
     destruct (create_fs_obj_spec fl e q st0 stA false wA en3 st3 w3 Hsec Hhl C Hrel Hfd Hcr) as (N1 & F1 & T1 & [C1|(-> & C1 & S1)]).
-    - exists false. assert (st' = st3 /\ w' = w3) as [-> ->] by (destruct en3; cbn in Hgu; now injection Hgu as _ <- <-).
-      repeat split; auto; try congruence.
+    - assert (st' = st3 /\ w' = w3) as [-> ->] by (destruct en3; cbn in Hgu; now injection Hgu as _ <- <-).
+      apply (re_post_intro e q st0 w st3 w3 false); auto; try congruence; try discriminate.
       left. destruct T1 as [T1|T1]; congruence.
-    - cbn in Hgu. injection Hgu as _ <- <-. exists true. repeat split; auto; try congruence.
+    - cbn in Hgu. injection Hgu as _ <- <-.
+      apply (re_post_intro e q st0 w st3 w3 true); auto; try congruence.
       left. destruct T1 as [T1|T1]; congruence.
   Qed.
 
@@ -1259,14 +1267,14 @@ Section Step.
         injection Hp as <-. apply snd_eq in Erm. rewrite Erm. now apply on_rmdir.
       - injection Hp as <-. apply snd_eq in Eun. rewrite Eun. now apply on_unlink. }
     destruct pre as [stp|] eqn:Epre.
-    2:{ injection Hrun as _ <- <-. exists false. repeat split; auto. now left. }
+    2:{ injection Hrun as _ <- <-. apply (re_post_intro e q st0 w st w false); auto; try discriminate. now left. }
     specialize (Hpre stp eq_refl). clear Epre.
     (* first attempt *)
     destruct (create_fs_obj fl e stp w) as [[en0 st1] w1] eqn:Ecr1.
     destruct (create_fs_obj_spec fl e q st0 stp false w en0 st1 w1 Hsec Hhl Hpre Hrel Hfd Ecr1) as (N1 & F1 & T1 & D1).
     assert (Tn1 : w_tmp w1 = None) by (destruct T1; congruence).
     destruct D1 as [C1|(-> & C1 & S1)].
-    2:{ cbn in Hrun. injection Hrun as _ <- <-. exists true. repeat split; auto. now left. }
+    2:{ cbn in Hrun. injection Hrun as _ <- <-. apply (re_post_intro e q st0 w st1 w1 true); auto. now left. }
     (* parent directory missing: create it, second attempt *)
     set (second := match en0 with
                    | Some ENOTDIR | Some ENOENT =>
@@ -1283,16 +1291,17 @@ Section Step.
         assert (Rel1 : relname (w_name w1) q) by (now rewrite N1).
         pose proof (create_parent_dir_spec fl q (w_name w1) st0 st1 false r1 st1' C1 Rel1 Ecp) as C1'.
         destruct (create_fs_obj_spec fl e q st0 st1' false w1 en1 st2 w2 Hsec Hhl C1' Rel1 F1 H3) as (N2 & F2 & T2 & D2).
-        repeat split; auto; try congruence. destruct T2; congruence. }
-      destruct en0 as [[]|]; try (injection H2 as <- <- <-; repeat split; auto); now apply Hretry. }
+        split; [congruence|]. split; [exact F2|]. split; [destruct T2; congruence|exact D2]. }
+      destruct en0 as [[]|]; try (injection H2 as <- <- <-; split; [exact N1|split; [exact F1|split; [exact Tn1|now left]]]);
+        now apply Hretry. }
     destruct second as [[en1 st2] w2] eqn:Esec.
     destruct (Hsec2 en1 st2 w2 eq_refl) as (N2 & F2 & Tn2 & D2). clear Hsec2.
     destruct D2 as [C2|(-> & C2 & S2)].
-    2:{ cbn in Hrun. injection Hrun as _ <- <-. exists true. repeat split; auto. now left. }
+    2:{ cbn in Hrun. injection Hrun as _ <- <-. apply (re_post_intro e q st0 w st2 w2 true); auto. now left. }
     assert (Rel2 : relname (w_name w2) q) by (now rewrite N2).
     assert (Done : forall wx, w_name wx = w_name w2 -> w_fd wx = w_fd w2 -> w_tmp wx = w_tmp w2 ->
               re_post e q st0 w st2 wx).
-    { intros wx Hn Hf Ht. exists false. repeat split; auto; try congruence.
+    { intros wx Hn Hf Ht. apply (re_post_intro e q st0 w st2 wx false); auto; try congruence; try discriminate.
       - intros i Hi. apply F2. congruence.
       - left. congruence. }
     assert (Tail : forall fs3 en3 st3 w3 r,
@@ -1315,10 +1324,12 @@ Section Step.
       + destruct (has fl EXTRACT_SAFE_WRITES && is_reg_node n).
         * (* temporary file *)
           destruct (sys_open_creat_excl (st_fs st2) (st_cwd st2) (tmp_name (w_name w2)) _) as [[en3|] fs3] eqn:Etmp.
-          -- injection Hrun as _ <- <-. exists false. repeat split; auto; try congruence. now right.
-          -- injection Hrun as _ <- <-. exists false.
+          -- injection Hrun as _ <- <-.
+             apply (re_post_intro e q st0 w st2 (w_set_tmp w2 (Some (tmp_name (w_name w2)))) false); auto; try discriminate.
+             now right.
+          -- injection Hrun as _ <- <-.
              assert (Hfresh : ~ O (nino (st_fs st2))) by (apply fresh_not_outside, (cu_ctx _ _ _ _ C2)).
-             repeat split; auto; try congruence.
+             eapply (re_post_intro e q st0 w _ _ false); try discriminate; try exact N2.
              ++ apply snd_eq in Etmp. rewrite Etmp.
                 assert (C3 : cur q st0 (with_fs st2 (snd (sys_open_creat_excl (st_fs st2) (st_cwd st2) (tmp_name (w_name w2))
                                 (N.ldiff 384 (st_umask st2))))) false).
@@ -1409,17 +1420,17 @@ Section Step.
     destruct (restore_entry_spec fl e k st1 st1 w0 ret st2 w2 Hsec Hhl C1 Hrel ltac:(intros i Hi; discriminate) eq_refl Ere)
       as (sy & C2 & N2 & F2 & T2 & S2).
     rewrite <- (cu_cwd _ _ _ _ C2) in Hrun. rewrite with_cwd_same in Hrun.
-    set (st4 := if _ then add_fixup st2 _ else st2) in Hrun.
-    assert (C4 : cur k st1 st4 sy) by (unfold st4; destruct (_ || _); [now apply cur_fixup|exact C2]).
+    match type of Hrun with context [if ?c then add_fixup ?a ?f else ?b] =>
+      set (st4 := if c then add_fixup a f else b) in Hrun;
+      assert (C4 : cur k st1 st4 sy) by (unfold st4; destruct c; [now apply cur_fixup|exact C2]) end.
     injection Hrun as <- <- <-.
     split.
     - apply (changed_of_stx (length T + length k) (false || sy) st st4); [now constructor|].
       eapply stx_trans; [exact X1|apply (cu_stx _ _ _ _ C4)].
     - intros w Hw. exists k, st1, sy.
       assert (w = w2) by (destruct ret; congruence). subst w.
-      repeat split; auto.
-      + now rewrite N2.
-      + intros ->. destruct (cu_stx _ _ _ _ C4) as (E4 & _ & _). eapply nfinal_ext; eauto.
+      split; [exact C4|]. split; [now rewrite N2|]. split; [exact F2|]. split; [exact T2|]. split; [exact S2|].
+      intros ->. destruct (cu_stx _ _ _ _ C4) as (E4 & _ & _). eapply nfinal_ext; eauto.
   Qed.
 
   Lemma ext_rename : forall D fs old new,
@@ -1433,7 +1444,7 @@ Section Step.
     destruct (resolve (root fs) T new false) as [e|d'|d' k' o]; cbn [snd]; try apply ext_refl.
     destruct Ho as [Hpd Hsrc]. destruct Hn as [Hpd' _]. cbn in Hd.
     assert (Hclean : allin (fun i => ~ O i) src).
-    { symmetry in Hsrc. eapply inside_leaf_clean; eauto. }
+    { symmetry in Hsrc. exact (inside_leaf_clean T O (root fs) d k src Hcl Hpd Hsrc). }
     assert (Hgo : ext T O D true fs (mkFs (add_ent d' k' src (del_ent d' k' (del_ent d k (root fs)))) (nino fs)) \/
                   exists es m t, src = Dir es m t).
     { destruct src as [ff i dd mm tt|es mm tt|tg]; [left|right; now eexists _, _, _|left].
@@ -1532,4 +1543,169 @@ Section Step.
     - congruence.
     - constructor; [apply (cu_cwd _ _ _ _ C')|apply (cu_ctx _ _ _ _ C')].
   Qed.
+
+  (* ---------------------------------------------------------------- any number of entries *)
+  Lemma changed_refl : forall st, Inv st -> changed st st.
+  Proof. intros st H. split; [reflexivity|split; [reflexivity|exact H]]. Qed.
+
+  Lemma changed_trans : forall a b c, changed a b -> changed b c -> changed a c.
+  Proof. intros a b c (P1 & U1 & I1) (P2 & U2 & I2). split; [congruence|split; [congruence|exact I2]]. Qed.
+
+  Theorem run_entries_confined : forall fl es st l st',
+    secure fl -> Forall hl_ok es -> Forall (short fl) es -> Inv st ->
+    run_entries fl st es = (l, st') -> changed st st'.
+  Proof.
+    intros fl es. induction es as [|e es IH]; intros st l st' Hsec Hhl Hsh HI Hrun.
+    - cbn in Hrun. injection Hrun as _ <-. now apply changed_refl.
+    - cbn [run_entries] in Hrun. inversion Hhl; subst. inversion Hsh; subst.
+      destruct (restore fl st e) as [rr st1] eqn:Er.
+      pose proof (restore_confined fl e st rr st1 Hsec H1 H3 HI Er) as Ch1.
+      destruct (run_entries fl st1 es) as [l2 st2] eqn:Er2.
+      assert (Ch2 : changed st1 st2) by (eapply IH; eauto; apply Ch1).
+      destruct rr as [[| | |] r2]; injection Hrun as _ <-; try (eapply changed_trans; eauto); exact Ch1.
+  Qed.
+
+  (* ---------------------------------------------------------------- the close loop of the proposed fix *)
+  Lemma open_nofollow_dir : forall k nm fs h,
+    ctx fs -> nfacts k fs -> relname nm k ->
+    sys_open_nofollow fs T nm true = inr h -> exists p, h = HDir p /\ is_prefix T p.
+  Proof.
+    intros k nm fs h C F Hrel Ho.
+    destruct (name_wok k fs nm false C F Hrel (or_introl eq_refl)) as [W _].
+    unfold sys_open_nofollow in Ho.
+    destruct (resolve (root fs) T nm false) as [e|d|d kk [[ff i dd mm tt|es mm tt|tg]|]]; try discriminate.
+    - injection Ho as <-. now exists d.
+    - injection Ho as <-. exists (d ++ [kk]). split; [reflexivity|]. destruct W as [W _]. now apply is_prefix_app.
+  Qed.
+
+  Lemma apply_fixup_at_ext : forall k nm fs f,
+    ctx fs -> nfacts k fs -> relname nm k ->
+    ext T O (length T + length k) false fs (apply_fixup_at fs T nm f).
+  Proof.
+    intros k nm fs f C F Hrel. unfold apply_fixup_at.
+    destruct (negb (fx_mode_todo f) && negb (fx_times_todo f)); [apply ext_refl|].
+    destruct (sys_open_nofollow fs T nm (fx_isdir f)) as [e|h] eqn:Eo.
+    - destruct (fx_isdir f); [|apply ext_refl].
+      destruct (sys_stat fs T nm false) as [e2|[| es mm tt |]] eqn:Est; try apply ext_refl.
+      (* lstat says directory: the last component is not a symlink *)
+      assert (Hfin : nfinal k fs).
+      { destruct F as [F|(Hn & Hne & Hs)]; [now left|right].
+        unfold sys_stat, resolve in Est. destruct Hrel as [Ha Hc]. rewrite Ha, Hc in Est.
+        destruct (Nat.leb PATH_MAX (p_len nm)); [discriminate|]. destruct (Nat.eqb (p_len nm) 0); [discriminate|].
+        pose proof (walk_safe MAXSYMLINKS (root fs) k T false Hn Hne (c_dir _ C) Hs (or_introl eq_refl)) as W.
+        set (wr := walk MAXSYMLINKS (root fs) T k false) in *. clearbody wr.
+        destruct W as [e3|q' kk Hq]; [discriminate|].
+        destruct (get (T ++ k) (root fs)) as [n|]; [|discriminate]. injection Est as ->. intros tg. discriminate. }
+      set (fs1 := if fx_times_todo f then snd (sys_utimens_nofollow fs T nm (fx_mtime f)) else fs).
+      assert (E1 : ext T O (length T + length k) false fs fs1).
+      { unfold fs1. destruct (fx_times_todo f); [|apply ext_refl].
+        destruct (name_wok k fs nm false C F Hrel (or_introl eq_refl)) as [W _].
+        apply ext_utimens; [exact W|apply (c_out _ C)|apply (c_cl _ C)]. }
+      destruct (fx_mode_todo f); [|exact E1].
+      eapply ext_trans_f; [exact E1|].
+      assert (C1 : ctx fs1) by (eapply ctx_ext; eauto).
+      assert (F1 : nfacts k fs1) by (eapply nfacts_ext; eauto).
+      assert (Fin1 : nfinal k fs1) by (eapply nfinal_ext; eauto).
+      destruct (name_wok k fs1 nm true C1 F1 Hrel (or_intror Fin1)) as [W _].
+      apply ext_chmod; [exact W|apply (c_out _ C1)|apply (c_cl _ C1)].
+    - destruct (fx_isdir f) eqn:Eisdir; [|apply ext_refl].
+      destruct (open_nofollow_dir k nm fs h C F Hrel Eo) as (p & -> & Hp).
+      set (fs1 := if fx_times_todo f then h_utimens fs (HDir p) (fx_mtime f) else fs).
+      assert (E1 : ext T O (length T + length k) false fs fs1).
+      { unfold fs1. destruct (fx_times_todo f); [|apply ext_refl]. cbn [h_utimens].
+        apply (ext_upd_attr T O _ fs p (fun m _ => (m, fx_mtime f))). exact Hp. }
+      destruct (fx_mode_todo f); [|exact E1].
+      eapply ext_trans_f; [exact E1|]. cbn [h_chmod].
+      apply (ext_upd_attr T O _ fs1 p (fun _ t => (fx_mode f, t))). exact Hp.
+  Qed.
+
+  Lemma apply_fixup_checked_ok : forall fl fs f,
+    secure fl -> ctx fs ->
+    prune T (root (apply_fixup_checked fl fs T f)) = prune T (root fs) /\ ctx (apply_fixup_checked fl fs T f).
+  Proof.
+    intros fl fs f (Hs1 & Hs2 & Hs3) C. unfold apply_fixup_checked. rewrite Hs1.
+    destruct (cleanup_pathname fl (strip_trailing_slashes (fx_name f))) as [qn| | |] eqn:Ecl; try (split; [reflexivity|exact C]).
+    destruct (cleanup_names fl _ qn Hs2 Hs3 Ecl) as (k & Hrel & Hk & Hlen & Hne & _ & _).
+    destruct (check_symlinks EXTRACT_SECURE_SYMLINKS true fs T (parse qn)) as [s1 fs1] eqn:Ecs.
+    assert (Hpl : (0 < p_len (parse qn))%nat) by (rewrite Hlen; destruct qn; [congruence|cbn; lia]).
+    destruct (check_symlinks_spec EXTRACT_SECURE_SYMLINKS true (length T + length k) k (parse qn) fs s1 fs1 eq_refl C Hrel Hk Hpl Ecs) as [E1 Hok].
+    assert (C1 : ctx fs1) by (eapply ctx_ext; eauto).
+    destruct s1; try (split; [apply (ext_prune _ _ _ _ _ _ E1)|exact C1]).
+    destruct (Hok eq_refl) as [F1 _].
+    pose proof (apply_fixup_at_ext k (parse qn) fs1 f C1 F1 Hrel) as E2.
+    split.
+    - rewrite (ext_prune _ _ _ _ _ _ E2). apply (ext_prune _ _ _ _ _ _ E1).
+    - eapply ctx_ext; eauto.
+  Qed.
+
+  Theorem close_checked_confined : forall fl st,
+    secure fl -> Inv st -> changed st (close_fixups_checked fl st).
+  Proof.
+    intros fl st Hsec [Hcwd Hctx]. unfold close_fixups_checked.
+    set (l := sort_fx (length (st_fixups st)) (st_fixups st)). clearbody l.
+    assert (G : forall fs, ctx fs ->
+              prune T (root (fold_left (fun fs f => apply_fixup_checked fl fs (st_cwd st) f) l fs)) = prune T (root fs) /\
+              ctx (fold_left (fun fs f => apply_fixup_checked fl fs (st_cwd st) f) l fs)).
+    { induction l as [|f l IH]; intros fs C; [split; [reflexivity|exact C]|].
+      cbn [fold_left]. rewrite Hcwd. destruct (apply_fixup_checked_ok fl fs f Hsec C) as [P1 C1].
+      rewrite Hcwd in IH. destruct (IH _ C1) as [P2 C2]. split; [congruence|exact C2]. }
+    destruct (G (st_fs st) Hctx) as [P C]. split; [exact P|split; [reflexivity|]].
+    constructor; [exact Hcwd|exact C].
+  Qed.
+
+  (* the headline for the patched close: any history, then close *)
+  Theorem run_checked_confined : forall fl es st l st',
+    secure fl -> Forall hl_ok es -> Forall (short fl) es -> Inv st ->
+    run_history_checked fl st es = (l, st') -> changed st st'.
+  Proof.
+    intros fl es st l st' Hsec Hhl Hsh HI Hrun. unfold run_history_checked in Hrun.
+    destruct (run_entries fl st es) as [l1 st1] eqn:Er. injection Hrun as _ <-.
+    pose proof (run_entries_confined fl es st l1 st1 Hsec Hhl Hsh HI Er) as Ch1.
+    eapply changed_trans; [exact Ch1|]. apply close_checked_confined; [exact Hsec|apply Ch1].
+  Qed.
 End Step.
+
+(* ================================================================== refused entries *)
+Lemma refused_sanitiser_noop : forall fl st e,
+  (forall q, cleanup_pathname fl (e_path e) <> ClOk q) -> restore fl st e = ((SFailed, SOk), st).
+Proof.
+  intros fl st e H. unfold restore, header. destruct (cleanup_pathname fl (e_path e)) as [q| | |]; try reflexivity.
+  exfalso. now apply (H q).
+Qed.
+
+Lemma cs_loop_fail_noop : forall fl ln rest fs fd habs head s fs',
+  has fl EXTRACT_UNLINK = false ->
+  cs_loop fl ln fs fd habs head rest = (s, fs') -> s <> SOk -> fs' = fs.
+Proof.
+  intros fl ln rest. induction rest as [|c rest IH]; intros fs fd habs head s fs' Hu Hrun Hs.
+  - cbn in Hrun. now injection Hrun as _ <-.
+  - cbn [cs_loop] in Hrun. rewrite Hu in Hrun.
+    destruct (sys_stat fs fd (mkpath habs (head ++ [c])) false) as [e|[ff i d m t|es m t|tg]].
+    + destruct (errno_eqb e ENOENT); now injection Hrun as _ <-.
+    + destruct (is_nil rest); [now injection Hrun as _ <-|]. eapply IH; eauto.
+    + destruct (is_nil rest); [now injection Hrun as _ <-|].
+      destruct (sys_chdir fs fd (mkpath habs (head ++ [c]))); [now injection Hrun as _ <-|]. eapply IH; eauto.
+    + destruct (is_nil rest && ln); [now injection Hrun as _ <-|].
+      destruct (is_nil rest).
+      * destruct (sys_unlink fs fd (mkpath habs (head ++ [c]))) as [[en|] fs1]; [now injection Hrun as _ <-|].
+        injection Hrun as <- _. congruence.
+      * destruct (negb (has fl EXTRACT_SECURE_SYMLINKS)); [|now injection Hrun as _ <-].
+        destruct (sys_stat fs fd (mkpath habs (head ++ [c])) true) as [e|[| es2 m2 t2 |]]; try (now injection Hrun as _ <-).
+        -- destruct (errno_eqb e ENOENT); now injection Hrun as _ <-.
+        -- destruct (sys_chdir fs fd (mkpath habs (head ++ [c]))); [now injection Hrun as _ <-|]. eapply IH; eauto.
+Qed.
+
+Lemma refused_symlink_stage_noop : forall fl st e q s fs1,
+  has fl EXTRACT_SECURE_SYMLINKS = true -> has fl EXTRACT_UNLINK = false ->
+  cleanup_pathname fl (e_path e) = ClOk q ->
+  ((e_type e =? T_HARDLINK)%N && str_eqb q (e_link e)) = false ->
+  check_symlinks fl false (st_fs st) (st_cwd st) (parse q) = (s, fs1) -> s <> SOk ->
+  restore fl st e = ((s, SOk), st).
+Proof.
+  intros fl st e q s fs1 Hsec Hu Hcl Hself Hcs Hs. unfold restore, header. rewrite Hcl, Hself, Hsec, Hcs.
+  assert (fs1 = st_fs st).
+  { unfold check_symlinks in Hcs. destruct (Nat.eqb (p_len (parse q)) 0); [now injection Hcs as _ <-|].
+    destruct (get (st_cwd st) (root (st_fs st))) as [[| es m t |]|]; try (now injection Hcs as _ <-).
+    destruct (p_comps (parse q)) eqn:Ec; [now injection Hcs as _ <-|]. eapply cs_loop_fail_noop; eauto. }
+  subst fs1. destruct st as [fs cwd um fx]. cbn. destruct s; congruence.
+Qed.
